@@ -2,9 +2,11 @@ package c_rpc
 
 import (
 	"context"
+	"errors"
 	"sync/atomic"
 	"testing"
 	"testing/synctest"
+	"time"
 
 	"github.com/gotd/td/bin"
 	"github.com/gotd/td/rpc"
@@ -62,6 +64,64 @@ func TestC24Regression(t *testing.T) {
 				t.Errorf("%s: Output was decoded after Do returned", how)
 			}
 			eng.ForceClose()
+		})
+	}
+}
+
+// TestC26Regression_resend_stuck_at_close replays the shrunk schedule found by
+// TestC26 after retransmissions got scripted outcomes: the request is sent, no
+// acknowledgement arrives, the retransmission is stuck in the transport, the
+// engine is force-closed and the stuck write then fails. The request was never
+// acknowledged, so the error must match rpc.ErrEngineClosed (safe to retry);
+// with the acknowledgement delivered first it must not. Fixed by "fix: report
+// ErrEngineClosed when a retransmission fails after the engine was closed".
+func TestC26Regression_resend_stuck_at_close(t *testing.T) {
+	for _, acked := range []bool{false, true} {
+		synctest.Test(t, func(t *testing.T) {
+			connClosed := make(chan struct{})
+			sends := 0
+			send := func(ctx context.Context, msgID int64, seqNo int32, in bin.Encoder) error {
+				sends++
+				if sends == 1 {
+					return nil
+				}
+				select { // the retransmission is stuck until the connection goes away
+				case <-ctx.Done():
+					return ctx.Err()
+				case <-connClosed:
+					return errConnClosed
+				}
+			}
+			eng := rpc.New(send, rpc.Options{RetryInterval: time.Second, MaxRetries: 3})
+			done := make(chan error, 1)
+			go func() {
+				done <- eng.Do(context.Background(), rpc.Request{MsgID: 1000, SeqNo: 1, Input: rawEnc("x"), Output: decoderFunc(func(*bin.Buffer) error { return nil })})
+			}()
+			time.Sleep(time.Second) // retry timer fires, the retransmission blocks
+			synctest.Wait()
+			if sends != 2 {
+				t.Fatalf("want a stuck retransmission, sends=%d", sends)
+			}
+			if acked {
+				eng.NotifyAcks([]int64{1000})
+				synctest.Wait()
+			}
+			go eng.ForceClose()
+			synctest.Wait()
+			close(connClosed)
+			synctest.Wait()
+			var err error
+			select {
+			case err = <-done:
+			default:
+				t.Fatalf("Do did not return after ForceClose")
+			}
+			if acked && (err == nil || errors.Is(err, rpc.ErrEngineClosed)) {
+				t.Fatalf("acknowledged request: got %v, want a non-retryable error", err)
+			}
+			if !acked && !errors.Is(err, rpc.ErrEngineClosed) {
+				t.Fatalf("C26 violated: the request was sent but never acknowledged when the engine closed: got %v, want an error matching rpc.ErrEngineClosed", err)
+			}
 		})
 	}
 }
